@@ -85,6 +85,72 @@ type evmAcct struct {
 	hasCode    bool
 	program    int    // behaviour of the deployed code (see zzverif programs)
 	third      string // the address the code calls
+	// storage (concrete 256-bit values): `committed` is what GetCommittedState
+	// returns (state after the last Finalise), `dirty` the journalled writes of
+	// the transactions since then - as in go-ethereum's stateObject
+	committed map[string]*big.Int
+	dirty     map[string]*big.Int
+}
+
+func (x *evmAcct) clone() *evmAcct {
+	cp := *x
+	cp.committed, cp.dirty = map[string]*big.Int{}, map[string]*big.Int{}
+	for k, v := range x.committed {
+		cp.committed[k] = v
+	}
+	for k, v := range x.dirty {
+		cp.dirty[k] = v
+	}
+	return &cp
+}
+
+func (x *evmAcct) state(slot string) *big.Int {
+	if v, ok := x.dirty[slot]; ok {
+		return v
+	}
+	return x.committedState(slot)
+}
+
+func (x *evmAcct) committedState(slot string) *big.Int {
+	if v, ok := x.committed[slot]; ok {
+		return v
+	}
+	return new(big.Int)
+}
+
+// finalise mirrors StateDB.Finalise for the modelled components: dirty storage
+// becomes the committed ("original") storage of the next transaction, journal,
+// revisions and the refund counter are reset.
+func (m *modelStateDB) finalise() {
+	for _, x := range m.accts {
+		for k, v := range x.dirty {
+			if x.committed == nil {
+				x.committed = map[string]*big.Int{}
+			}
+			x.committed[k] = v
+		}
+		x.dirty = nil
+	}
+	m.journal, m.snaps = nil, map[int]int{}
+	m.refund = 0
+}
+
+func hashKey(v value) string {
+	a, ok := v.(array)
+	if !ok {
+		unsupp("hash value %T", v)
+	}
+	bz, ok := concreteBytes([]value(a))
+	if !ok {
+		unsupp("symbolic storage key / value")
+	}
+	return string(bz)
+}
+
+func hashArray(b *big.Int) array {
+	bz := make([]byte, 32)
+	b.FillBytes(bz)
+	return array(bytesToValues(bz))
 }
 
 type modelStateDB struct {
@@ -93,6 +159,7 @@ type modelStateDB struct {
 	snaps     map[int]int // snapshot id -> journal length
 	nextSnap  int
 	access    map[string]bool
+	slots     map[string]bool // slot access list (address + slot)
 	refund    uint64
 	hist      *snap // committed history (root hash = f(history))
 	pending   *snap // effects since last commit
@@ -283,7 +350,7 @@ func registerEVM(ex *Explorer) {
 	ex.register(gethState+".New", func(fr *frame, args []value) value {
 		root := args[0].(array)
 		s := unboxDB(args[1].(iface).v)
-		m := &modelStateDB{accts: map[string]*evmAcct{}, snaps: map[int]int{}, access: map[string]bool{}, st: s}
+		m := &modelStateDB{accts: map[string]*evmAcct{}, snaps: map[int]int{}, access: map[string]bool{}, slots: map[string]bool{}, st: s}
 		if h, ok := root[0].(*handle); ok {
 			// state committed under this root: flushed to disk, or still in the
 			// caching database of this process
@@ -296,8 +363,7 @@ func registerEVM(ex *Explorer) {
 			}
 			saved := st[0].(*savedEVMState)
 			for a, x := range saved.accts {
-				cp := *x
-				m.accts[a] = &cp
+				m.accts[a] = x.clone()
 			}
 			m.hist = saved.hist
 		}
@@ -313,6 +379,7 @@ func registerEVM(ex *Explorer) {
 		m := unboxSDB(args[0])
 		m.thash = []value(args[1].(array))
 		m.access = map[string]bool{}
+		m.slots = map[string]bool{}
 		return nil
 	})
 	ex.register(sdb("Snapshot"), func(fr *frame, args []value) value {
@@ -403,7 +470,67 @@ func registerEVM(ex *Explorer) {
 		}
 		return nil
 	})
-	ex.register(sdb("AddSlotToAccessList"), noop)
+	ex.register(sdb("AddSlotToAccessList"), func(fr *frame, args []value) value {
+		m := unboxSDB(args[0])
+		k := addrKey(args[1]) + "/" + hashKey(args[2])
+		if !m.slots[k] {
+			m.journal = append(m.journal, func() { delete(m.slots, k) })
+			m.slots[k] = true
+		}
+		return nil
+	})
+	ex.register(sdb("SlotInAccessList"), func(fr *frame, args []value) value {
+		m := unboxSDB(args[0])
+		a := addrKey(args[1])
+		return tuple{m.access[a], m.slots[a+"/"+hashKey(args[2])]}
+	})
+	ex.register(sdb("GetState"), func(fr *frame, args []value) value {
+		return hashArray(unboxSDB(args[0]).acct(addrKey(args[1])).state(hashKey(args[2])))
+	})
+	ex.register(sdb("GetCommittedState"), func(fr *frame, args []value) value {
+		return hashArray(unboxSDB(args[0]).acct(addrKey(args[1])).committedState(hashKey(args[2])))
+	})
+	ex.register(sdb("SetState"), func(fr *frame, args []value) value {
+		m := unboxSDB(args[0])
+		x := m.acct(addrKey(args[1]))
+		k := hashKey(args[2])
+		nv := new(big.Int).SetBytes([]byte(hashKey(args[3])))
+		old, had := x.dirty[k]
+		if x.state(k).Cmp(nv) == 0 {
+			return nil // as in stateObject.SetState: no journal entry for a no-op
+		}
+		m.journal = append(m.journal, func() {
+			if had {
+				x.dirty[k] = old
+			} else {
+				delete(x.dirty, k)
+			}
+		})
+		if x.dirty == nil {
+			x.dirty = map[string]*big.Int{}
+		}
+		x.dirty[k] = nv
+		m.note("sstore", &snap{kind: 'T', str: addrKey(args[1])}, &snap{kind: 'T', str: k}, &snap{kind: 'T', str: nv.String()})
+		return nil
+	})
+	ex.register(sdb("AddRefund"), func(fr *frame, args []value) value {
+		m := unboxSDB(args[0])
+		old := m.refund
+		m.journal = append(m.journal, func() { m.refund = old })
+		m.refund += uint64(asInt64(args[1]))
+		return nil
+	})
+	ex.register(sdb("SubRefund"), func(fr *frame, args []value) value {
+		m := unboxSDB(args[0])
+		g := uint64(asInt64(args[1]))
+		if g > m.refund {
+			panic(targetPanic{iface{t: types.Typ[types.String], v: fmt.Sprintf("Refund counter below zero (gas: %d > refund: %d)", g, m.refund)}})
+		}
+		old := m.refund
+		m.journal = append(m.journal, func() { m.refund = old })
+		m.refund -= g
+		return nil
+	})
 	ex.register(sdb("AddressInAccessList"), func(fr *frame, args []value) value {
 		return unboxSDB(args[0]).access[addrKey(args[1])]
 	})
@@ -426,8 +553,7 @@ func registerEVM(ex *Explorer) {
 	})
 	ex.register(sdb("GetRefund"), func(fr *frame, args []value) value { return unboxSDB(args[0]).refund })
 	ex.register(sdb("Finalise"), func(fr *frame, args []value) value {
-		m := unboxSDB(args[0])
-		m.journal, m.snaps = nil, map[int]int{}
+		unboxSDB(args[0]).finalise()
 		return nil
 	})
 	ex.register(sdb("GetLogs"), func(fr *frame, args []value) value { return []value(nil) })
@@ -439,6 +565,7 @@ func registerEVM(ex *Explorer) {
 	})
 	ex.register(sdb("Commit"), func(fr *frame, args []value) value {
 		m := unboxSDB(args[0])
+		m.finalise() // Commit -> IntermediateRoot -> Finalise
 		h := &snap{kind: 'L'}
 		if m.hist != nil {
 			h.elems = append(h.elems, m.hist.elems...)
@@ -455,8 +582,7 @@ func registerEVM(ex *Explorer) {
 		// remember the state under this root (looked up by state.New)
 		saved := &savedEVMState{accts: map[string]*evmAcct{}, hist: h}
 		for a, x := range m.accts {
-			cp := *x
-			saved.accts[a] = &cp
+			saved.accts[a] = x.clone()
 		}
 		if m.st.mem == nil {
 			m.st.mem = map[string][]value{}
@@ -608,13 +734,100 @@ func applyMessageModel(fr *frame, args []value) value {
 	// evmCall mirrors vm.EVM.Call for the abstract programs:
 	//   0 STOP | 1 CALL(third, value 1) then STOP | 2 CALL then REVERT | 4 CALL then INVALID
 	//   5 CALL(third, 0), CALL(third, 1), STOP | 6 REVERT if called without value else STOP
-	var evmCall func(caller, addr array, val *Term, depth int) string
-	runProgram := func(self array, callValue *Term, depth int) string {
+	//   7 storage cell: without call data RETURN slot 0, otherwise slot 0 := calldata[0:32]; gas
+	//     metered exactly (EIP-2929/2200/3529 as in operations_acl.go), so UsedGas is determined
+	var evmCall func(caller, addr array, val *Term, input []value, depth int) string
+	exact := false      // the gas consumed by the execution is determined by the model
+	var execGas uint64  // ... and is this much
+	var retData []value // RETURN data of the top-level call
+	runProgram := func(self array, callValue *Term, input []value, depth int) string {
 		if msdb == nil {
 			return ""
 		}
 		ac := msdb.acct(addrKey(self))
 		if !ac.hasCode || ac.program == 0 || depth > 3 {
+			return ""
+		}
+		if ac.program == 7 {
+			if depth != 0 {
+				unsupp("storage-cell program called from another contract")
+			}
+			in, ok := concreteBytes(input)
+			if !ok {
+				unsupp("symbolic call data for the storage-cell program")
+			}
+			slot0 := hashArray(new(big.Int))
+			if len(in) == 0 {
+				// PUSH1 7 POP CALLDATASIZE PUSH1 dest JUMPI | PUSH1 0 SLOAD PUSH1 0 MSTORE PUSH1 32 PUSH1 0 RETURN
+				cost := uint64(20 + 3 + 15)
+				if sl := i.callMethod(fr, sdbI, "SlotInAccessList", self, slot0).(tuple); sl[1] == false {
+					i.callMethod(fr, sdbI, "AddSlotToAccessList", self, slot0)
+					cost += 2100
+				} else {
+					cost += 100
+				}
+				if c.branch(Lt(left, IntConst64(int64(cost)))) {
+					return "out of gas"
+				}
+				exact, execGas = true, cost
+				retData = []value(i.callMethod(fr, sdbI, "GetState", self, slot0).(array))
+				return ""
+			}
+			// ... JUMPDEST PUSH1 0 CALLDATALOAD PUSH1 0 SSTORE STOP
+			word := make([]byte, 32)
+			copy(word, in)
+			nv := new(big.Int).SetBytes(word)
+			if c.branch(Lt(left, IntConst64(30))) {
+				return "out of gas"
+			}
+			rem := Sub(left, IntConst64(30))
+			if c.branch(Le(rem, IntConst64(2300))) {
+				return "not enough gas for reentrancy sentry"
+			}
+			cost := uint64(0)
+			if sl := i.callMethod(fr, sdbI, "SlotInAccessList", self, slot0).(tuple); sl[1] == false {
+				cost = 2100
+				i.callMethod(fr, sdbI, "AddSlotToAccessList", self, slot0)
+			}
+			asBig := func(v value) *big.Int { return new(big.Int).SetBytes([]byte(hashKey(v))) }
+			cur := asBig(i.callMethod(fr, sdbI, "GetState", self, slot0))
+			const clearing = 4800
+			if cur.Cmp(nv) == 0 {
+				cost += 100
+			} else {
+				orig := asBig(i.callMethod(fr, sdbI, "GetCommittedState", self, slot0))
+				if orig.Cmp(cur) == 0 {
+					if orig.Sign() == 0 {
+						cost += 20000
+					} else {
+						if nv.Sign() == 0 {
+							i.callMethod(fr, sdbI, "AddRefund", uint64(clearing))
+						}
+						cost += 2900
+					}
+				} else {
+					if orig.Sign() != 0 {
+						if cur.Sign() == 0 {
+							i.callMethod(fr, sdbI, "SubRefund", uint64(clearing))
+						} else if nv.Sign() == 0 {
+							i.callMethod(fr, sdbI, "AddRefund", uint64(clearing))
+						}
+					}
+					if orig.Cmp(nv) == 0 {
+						if orig.Sign() == 0 {
+							i.callMethod(fr, sdbI, "AddRefund", uint64(19900))
+						} else {
+							i.callMethod(fr, sdbI, "AddRefund", uint64(2800))
+						}
+					}
+					cost += 100
+				}
+			}
+			if c.branch(Lt(rem, IntConst64(int64(cost)))) {
+				return "out of gas"
+			}
+			i.callMethod(fr, sdbI, "SetState", self, slot0, hashArray(nv))
+			exact, execGas = true, 30+cost
 			return ""
 		}
 		if ac.program == 6 {
@@ -629,7 +842,7 @@ func applyMessageModel(fr *frame, args []value) value {
 			if inList := i.callMethod(fr, sdbI, "AddressInAccessList", tgt); inList == false {
 				i.callMethod(fr, sdbI, "AddAddressToAccessList", tgt)
 			}
-			_ = evmCall(self, tgt, IntConst64(v), depth+1) // result ignored by the program
+			_ = evmCall(self, tgt, IntConst64(v), nil, depth+1) // result ignored by the program
 		}
 		if ac.program == 5 {
 			// call third with value 0, then again with value 1, STOP
@@ -646,7 +859,7 @@ func applyMessageModel(fr *frame, args []value) value {
 		}
 		return ""
 	}
-	evmCall = func(caller, addr array, val *Term, depth int) string {
+	evmCall = func(caller, addr array, val *Term, input []value, depth int) string {
 		if c.branch(Gt(val, IntConst64(0))) {
 			ok := call(i, fr, token.NoPos, canFn, []value{sdbI, caller, mkBig(val)})
 			if !c.branch(termOf(ok)) {
@@ -658,7 +871,7 @@ func applyMessageModel(fr *frame, args []value) value {
 			i.callMethod(fr, sdbI, "CreateAccount", addr)
 		}
 		call(i, fr, token.NoPos, trFn, []value{sdbI, caller, addr, mkBig(val)})
-		errS := runProgram(addr, val, depth)
+		errS := runProgram(addr, val, input, depth)
 		if errS != "" {
 			i.callMethod(fr, sdbI, "RevertToSnapshot", sn)
 		}
@@ -687,12 +900,25 @@ func applyMessageModel(fr *frame, args []value) value {
 		}
 	} else {
 		i.callMethod(fr, sdbI, "SetNonce", fromA, mkScalar(c, types.Uint64, Wrap(kU64, Add(getNonce(fromA), IntConst64(1)))))
-		vmErr = evmCall(fromA, targetA, value_, 0)
+		vmErr = evmCall(fromA, targetA, value_, data, 0)
 		if msdb != nil {
 			behaviour = msdb.acct(target).program
 		}
 		if vmErr != "" && vmErr != "execution reverted" {
 			gasLeft = IntConst64(0)
+		} else if exact && vmErr == "" {
+			// metered program: gas left and the London refund (quotient 5) are determined
+			gasLeft = Sub(left, IntConst64(int64(execGas)))
+			if ig.isConst() {
+				used := ig.c.Uint64() + execGas
+				refund := asUint64(i.callMethod(fr, sdbI, "GetRefund"))
+				if refund > used/5 {
+					refund = used / 5
+				}
+				gasLeft = Add(gasLeft, IntConst64(int64(refund)))
+			} else {
+				unsupp("symbolic intrinsic gas with a metered program")
+			}
 		}
 	}
 	if sdb, ok := unwrapModelSDB(sdbI); ok {
@@ -714,6 +940,8 @@ func applyMessageModel(fr *frame, args []value) value {
 	}
 	if creation && vmErr == "" {
 		res[fieldIndex(rt, "ReturnData")] = bytesToValues([]byte{0x60, 0x00})
+	} else if retData != nil && vmErr == "" {
+		res[fieldIndex(rt, "ReturnData")] = retData
 	}
 	var cell value = res
 	return tuple{&cell, iface{}}
@@ -737,8 +965,8 @@ func parseProgram(data []value) (int, string, bool) {
 			return 0, "", false
 		}
 		return id, string(rt[14:34]), true
-	case 6:
-		return 6, "", true
+	case 6, 7:
+		return id, "", true
 	}
 	return 0, "", false
 }
